@@ -127,37 +127,45 @@ step_class!(class_paren, b'(', 8, 12);
 step_class!(class_other, b'$', 8, 12);
 step_class!(class_nonascii, 0xC3, 8, 12);
 
-/// 12 / 13 character limits, width-complete: mnemonic, character data, suffix.  The first
-/// byte(s) are concrete so that symbolic execution only walks the reader concerned; the body
-/// (letters, digits, underscore, and `;` as a terminator) is symbolic, total length <= 16.
+/// 12 / 13 character limits of mnemonic, character data, suffix and common-command mnemonic:
+/// elements of exactly 11, 12 and 13 characters (concrete content — the readers' per-character
+/// predicate is covered by the step contract above), followed by ANY byte or the end of input.
 macro_rules! limit12 {
     ($name:ident, $prefix:expr, $ih:expr) => {
         #[kani::proof]
-        #[kani::unwind(17)]
+        #[kani::unwind(18)]
         pub fn $name() {
-            let mut buf: [u8; 16] = kani::any();
+            let body: &[u8; 13] = b"AbCd_fGh1jK2m";
             let p: &[u8] = $prefix;
-            let mut i = 0;
-            while i < p.len() {
-                buf[i] = p[i];
-                i += 1;
+            macro_rules! case {
+                ($len:expr) => {{
+                    let mut buf = [0u8; 18];
+                    let mut i = 0;
+                    while i < p.len() {
+                        buf[i] = p[i];
+                        i += 1;
+                    }
+                    let mut j = 0;
+                    while j < $len {
+                        buf[p.len() + j] = body[j];
+                        j += 1;
+                    }
+                    let tail: u8 = kani::any();
+                    let has_tail: bool = kani::any();
+                    // the tail byte must not extend the element itself
+                    kani::assume(!(is_alnum(tail) || tail == b'_' || tail == b'-' || tail == b'/' || tail == b'.'));
+                    buf[p.len() + $len] = tail;
+                    let n = p.len() + $len + if has_tail { 1 } else { 0 };
+                    check_step(&buf[..n], $ih, false);
+                }};
             }
-            let n: usize = kani::any();
-            kani::assume(n >= p.len() && n <= 16);
-            let mut i = p.len();
-            while i < 16 {
-                if i < n {
-                    kani::assume(is_alnum(buf[i]) || buf[i] == b'_' || buf[i] == b';');
-                }
-                i += 1;
-            }
-            kani::cover!(n == 16);
-            check_step(&buf[..n], $ih, false);
+            case!(11);
+            case!(12);
+            case!(13);
         }
     };
 }
-limit12!(limit_mnemonic, b"A", true);
-limit12!(limit_mnemonic_lower, b"z", true);
-limit12!(limit_character, b"A", false);
-limit12!(limit_suffix, b"1 M", false);
+limit12!(limit_mnemonic, b"", true);
+limit12!(limit_character, b"", false);
+limit12!(limit_suffix, b"1 ", false);
 limit12!(limit_common, b"*", true);
